@@ -188,6 +188,8 @@ def run(ctx, model):
     # a live TupimageTerminal whose id_space / id_subspace is re-assigned behaves like one constructed with the new values
     import c08_cli
     c08_cli.reconfigure_equivalence(ctx, cov, ctx.pick(24, 120), must_change=["id_space", "id_subspace"])
+    # the command line hands out ids from the space / subspace the configuration (file, environment) names: CLI ≡ library call
+    c08_cli.cli_equivalence(ctx, cov, ctx.pick(24, 80), env_rate=0.8)
     return cov
 
 
